@@ -202,6 +202,15 @@ func (c *counters) merge(o *counters) {
 	c.Sessions += o.Sessions
 	c.Resets += o.Resets
 	c.Skew += o.Skew
+	c.Input += o.Input
+	c.InputNontrivial += o.InputNontrivial
+	c.InputMustFail += o.InputMustFail
+	c.InputMustOK += o.InputMustOK
+	c.InputEither += o.InputEither
+	c.InputEitherAccepted += o.InputEitherAccepted
+	c.Bulk += o.Bulk
+	c.BulkFaulty += o.BulkFaulty
+	c.StrictFaulty += o.StrictFaulty
 	c.MaxDiffLines = m
 }
 
